@@ -561,6 +561,15 @@ Proof.
       * apply Hle. right; exact Hy.
 Qed.
 
+Lemma is_maxb_spec l x : is_maxb l x = true <-> is_max l x.
+Proof.
+  unfold is_maxb, is_max. rewrite andb_true_iff, existsb_exists, forallb_forall. split.
+  - intros [(y & Hy & He) Hall]. apply Z.eqb_eq in He. subst y. split; [exact Hy|].
+    intros y Hy'. apply Z.leb_le. apply Hall; exact Hy'.
+  - intros [Hin Hall]. split; [exists x; split; [exact Hin|apply Z.eqb_refl]|].
+    intros y Hy. apply Z.leb_le. apply Hall; exact Hy.
+Qed.
+
 Lemma max_list_code_defined (l : list Z) : l <> [] -> exists x, max_list_code l = inl x.
 Proof. destruct l; [congruence|]. intros _. eexists; reflexivity. Qed.
 
